@@ -1002,6 +1002,15 @@ class LayoutInfoScraper:
         return extent
 
 
+def _unused_id(wanted, taken):
+    """xml:id values are shared by <style> and <region> elements: return
+    `wanted`, with underscores appended until no id in `taken` equals it
+    """
+    while wanted in taken:
+        wanted += '_'
+    return wanted
+
+
 class RegionCreator:
     """Creates the DFXP regions, and knows how retrieve them, for assigning
     region IDs to every element
@@ -1032,6 +1041,12 @@ class RegionCreator:
         self._region_map = {}
         self._id_seed = 0
         self._assigned_region_ids = set()
+        # the ids of the styles that will be written, which region ids must
+        # not repeat
+        self._style_ids = {
+            style_id for style_id, _ in caption_set.get_styles()}
+        self._default_region_id = _unused_id(
+            DFXP_DEFAULT_REGION_ID, self._style_ids)
 
     @staticmethod
     def _collect_unique_regions(caption_set, ignore_region):
@@ -1108,7 +1123,7 @@ class RegionCreator:
         # Creates the default region
         default_region_map = self._create_unique_regions(
             [DFXP_DEFAULT_REGION],
-            self._dfxp, lambda: DFXP_DEFAULT_REGION_ID
+            self._dfxp, lambda: self._default_region_id
         )
         unique_regions = self._collect_unique_regions(
             self._caption_set, DFXP_DEFAULT_REGION)
@@ -1126,6 +1141,9 @@ class RegionCreator:
         """
         new_id = f'{prefix}{self._id_seed}'
         self._id_seed += 1
+        while new_id in self._style_ids:
+            new_id = f'{prefix}{self._id_seed}'
+            self._id_seed += 1
         return new_id
 
     def get_positioning_info(
@@ -1172,7 +1190,7 @@ class RegionCreator:
         # Make sure the default region ID/ attributes are always returned
         # as fallback
         if not region_id:
-            region_id = DFXP_DEFAULT_REGION_ID
+            region_id = self._default_region_id
 
         positioning_attributes = _convert_layout_to_attributes(layout_info)
 
